@@ -20,6 +20,7 @@ import Hw.Topo.StageDecomp
 import Hw.Topo.StageTyping
 import Hw.Topo.StageSetsOK
 import Hw.Topo.StageRemoveEmptyKept
+import Hw.Topo.StageSymmetricLemmas
 namespace Hw.Props.C01
 open Hw.Topo
 
@@ -480,6 +481,60 @@ example : totalT (fun _ => W64 - 1) exMemT = W64 - 3 := by decide +kernel
 def exGrp : Tree := exN 1 tMACHINE 3 0 [exN 2 tGROUP 3 0 [exN 3 tPACKAGE 3 0 [exN 4 tGROUP 1 0 [exN 5 tPU 1 0 [] [] [] []] [] [] [],
   exN 6 tGROUP 2 0 [exN 7 tPU 2 0 [] [] [] []] [] [] []] [] [] []] [] [] []] [] [] []
 example : setGroupDepth exGrp = [(2, 0), (4, 1), (6, 1)] ∧ (connectLevels exGrp).length = 5 := by decide +kernel
+
+
+/-! ### hwloc_propagate_symmetric_subtree (Hw/Topo/StageSymmetric.lean; `dep` = the depth field, any function) -/
+
+/-- **the loop**: the `while (1)` walk over the array of children (fuel = number of objects below, which always suffices) answers
+"identical" iff every entry has the same first-children spine — (depth, arity) of the entry, of its first child, of the first child of
+that, … down to an object without normal child — as entry 0 -/
+theorem C01_symmetric_walk (dep : RObj → Int) (arr : List Tree) :
+    walk dep (sizeL arr) arr = true ↔ ∀ a ∈ arr, spineT dep a = spineL dep arr :=
+  walk_iff dep _ _ (spineL_length_le dep arr)
+
+/-- **the rule** for every object of every tree: `symmetric_subtree` is set iff the object has no normal child, or all normal children
+are symmetric and have the same first-children spine as the first child (trivially true for a single child: the `arity == 1` shortcut) -/
+theorem C01_symmetric_rule (dep : RObj → Int) (o : RObj) (ns ms ios mis : List Tree) :
+    symT dep (.node o ns ms ios mis) = true ↔
+      ns = [] ∨ ((∀ c ∈ ns, symT dep c = true) ∧ ∀ c ∈ ns, spineT dep c = spineL dep ns) := symT_iff dep o ns ms ios mis
+
+/-- leaves (PUs) are symmetric whatever memory / I/O / Misc children they carry -/
+theorem C01_symmetric_leaf (dep : RObj → Int) (o : RObj) (ms ios mis : List Tree) : symT dep (.node o [] ms ios mis) = true :=
+  symT_leaf dep o ms ios mis
+
+/-- the flags of ALL visited objects depend only on the normal-children skeleton: two trees that differ in memory, I/O or Misc children
+(anywhere) get the same flags -/
+theorem C01_symmetric_ignores_other_children (dep : RObj → Int) (t t' : Tree) (h : skelT t = skelT t') :
+    symsT dep t = symsT dep t' := symsT_congr_skel dep t t' h
+
+/-- **meaning**: the flag is set iff the subtree is uniform row by row: every object at distance k (through normal children) has the
+depth and arity at position k of the spine and every branch ends on the last row -/
+theorem C01_symmetric_meaning (dep : RObj → Int) (t : Tree) : symT dep t = true ↔ uniformT dep t (spineT dep t) :=
+  symT_iff_uniform dep t
+
+/-- **in the composition**: on the tree `t2` that level merging leaves (any tree), the stage writes exactly one flag per normal object, in
+depth-first order, and the flag of each visited subtree `s` is the rule / the uniformity of `s`, with the depths of `connectLevels t2` -/
+theorem C01_pipeline_symmetric (i : In) (dc : Deco) (filters : List Nat) (t2 : Tree) (_h : pipeline i dc filters = some t2) :
+    symmetricStage t2 = (subsN t2).map (fun s => (s.obj.gp, symT (depthIn (connectLevels t2)) s)) ∧
+    (symmetricStage t2).length = sizeT (skelT t2) ∧
+    ∀ s ∈ subsN t2, (symT (depthIn (connectLevels t2)) s = true ↔
+      uniformT (depthIn (connectLevels t2)) s (spineT (depthIn (connectLevels t2)) s)) :=
+  ⟨symsT_eq_map _ t2, symsT_length _ t2, fun s _ => symT_iff_uniform _ s⟩
+
+/-- non-vacuity: Machine > 2 Packages; package gp 2 has two Cores with 1 PU each, package gp 3 has two Cores with 1 and 2 PUs: gp 3 and
+the Machine are not symmetric, everything else is; with the second PU of gp 9 removed everything is symmetric; a NUMA node and a Misc
+object change nothing -/
+def exSymA : Tree := exN 1 tMACHINE 0 0 [exN 2 tPACKAGE 0 0 [exN 4 tCORE 0 0 [exN 5 tPU 0 0 [] [] [] []] [] [] [], exN 6 tCORE 0 0 [exN 7 tPU 0 0 [] [] [] []] [] [] []] [] [] [],
+  exN 3 tPACKAGE 0 0 [exN 8 tCORE 0 0 [exN 10 tPU 0 0 [] [] [] []] [] [] [], exN 9 tCORE 0 0 [exN 11 tPU 0 0 [] [] [] [], exN 12 tPU 0 0 [] [] [] []] [] [] []]
+    [exN 20 tNUMA 0 0 [] [] [] []] [] [exLeaf 21 tMISC]] [] [] []
+example : symmetricStage exSymA = [(1, false), (2, true), (4, true), (5, true), (6, true), (7, true), (3, false), (8, true), (10, true),
+    (9, true), (11, true), (12, true)] ∧ (connectLevels exSymA).length = 4 ∧
+    spineT (depthIn (connectLevels exSymA)) exSymA = [(0, 2), (1, 2), (2, 1), (3, 0)] := by decide +kernel
+example : ∃ t2, pipeline exIn exDc (List.replicate 20 0) = some t2 ∧ (symmetricStage t2).length = 8 := ⟨_, rfl, by decide +kernel⟩
+/-- the depth matters: two children of equal arity but different depth (a Core next to an L2 holding a Core) are not "same shape" -/
+def exSymB : Tree := exN 1 tMACHINE 0 0 [exN 2 tCORE 0 0 [exN 3 tPU 0 0 [] [] [] []] [] [] [],
+  exN 4 5 0 0 [exN 5 tCORE 0 0 [exN 6 tPU 0 0 [] [] [] []] [] [] []] [] [] []] [] [] []
+example : symmetricStage exSymB = [(1, false), (2, true), (3, true), (4, true), (5, true), (6, true)] := by decide +kernel
 
 end Stages
 
